@@ -39,6 +39,18 @@ let line l =
     let c = r_cfg (parse_sexp rest) in
     if not (DegJustify.array_free_cfg c) then "(arrays)"
     else if DegJustify.djust_cfg c then "(justified)" else "(unjustified)"
+  | "ssa" ->
+    (* ssa (cfg ...) (dominfo (frontier ..) (children ..)) : the construction mirror *)
+    let rest = Stdlib.String.sub l (sp1 + 1) (Stdlib.String.length l - sp1 - 1) in
+    (match parse_sexp ("(" ^ rest ^ ")") with
+     | L [c; L [A "dominfo"; L (A "frontier" :: fr); L (A "children" :: ch)]] ->
+       let nl = Stdlib.List.map (function L xs -> Stdlib.List.map num_n xs | _ -> failwith "dominfo") in
+       (match Ssa.into_ssa (nl fr) (nl ch) (r_cfg c) with
+        | Ssa.SOk c' -> show_sexp (w_cfg c')
+        | Ssa.SErrUndefined -> "(ssaerr)"
+        | Ssa.SPanic -> "(panic)"
+        | Ssa.SFuel -> "(outoffuel)")
+     | _ -> "(badline)")
   | "ssacheck" ->
     (* ssacheck (cfg ...) (idom ...) *)
     let rest = Stdlib.String.sub l (sp1 + 1) (Stdlib.String.length l - sp1 - 1) in
